@@ -112,7 +112,8 @@ def covered : List Body :=
    VaxisModel.Gen.TermBodies.body_tbc, VaxisModel.Gen.TermBodies.body_hts, VaxisModel.Gen.TermBodies.body_resize,
    VaxisModel.Gen.TermBodies.body_decsc, VaxisModel.Gen.TermBodies.body_decrc, VaxisModel.Gen.TermBodies.body_ris,
    VaxisModel.Gen.TermBodies.body_setDefaultTabStops, VaxisModel.Gen.TermBodies.body_sm, VaxisModel.Gen.TermBodies.body_rm,
-   VaxisModel.Gen.TermBodies.body_decset, VaxisModel.Gen.TermBodies.body_decrst, VaxisModel.Gen.TermBodies.body_decrqm]
+   VaxisModel.Gen.TermBodies.body_decset, VaxisModel.Gen.TermBodies.body_decrst, VaxisModel.Gen.TermBodies.body_decrqm,
+   VaxisModel.Gen.TermBodies.body_sgr]
 
 /-! Tactics: `body_norm` evaluates `evalBody` on a concrete body (first the interpreter itself, with
 the comparisons still folded so that their `Decidable` instances are built from normalised
